@@ -96,6 +96,8 @@ type thread struct {
 	started bool
 	quiesce bool
 	pend    *chanOp
+	res     []uintptr // resources of the pending operation (partial-order reduction)
+	daemon  bool      // models a runtime-internal waiter (context.AfterFunc): never reported as left behind
 }
 
 var (
@@ -109,6 +111,14 @@ var (
 	MapOrderChoices bool
 	// SelectChoices makes a select with several ready cases offer each as an environment choice.
 	SelectChoices = true
+	// Fine makes release-like operations (Unlock, WaitGroup.Add/Done) scheduling points too, so that every
+	// transition consists of exactly one synchronisation operation followed by thread-local code.
+	Fine bool
+	// POR enables sleep-set partial-order reduction (requires Fine; unbounded search only).
+	POR bool
+
+	asleep     map[*thread]bool
+	pendingRes []uintptr
 
 	cur      *thread
 	threads  []*thread
@@ -118,6 +128,29 @@ var (
 	chans    map[any]*chanState
 	finished bool
 )
+
+// Resource keys for the partial-order reduction. Two pending operations are dependent iff they share a
+// key, or one of them carries ResAll, or one is a harness operation and the other a context operation
+// (harness threads cancel contexts directly).
+const (
+	ResAll     uintptr = 1 // conflicts with everything (default for operations that declare nothing)
+	ResHarness uintptr = 2 // every harness-level operation (event log, pipes, gates, joins)
+	ResCtx     uintptr = 3 // context state: ctx.Err(), cancel functions, receives on channels closed by un-instrumented code
+)
+
+// SetRes declares the resources of the operation whose scheduling point follows.
+func SetRes(keys ...uintptr) { pendingRes = keys }
+
+func conflict(a, b []uintptr) bool {
+	for _, x := range a {
+		for _, y := range b {
+			if x == y || x == ResAll || y == ResAll || (x == ResHarness && y == ResCtx) || (x == ResCtx && y == ResHarness) {
+				return true
+			}
+		}
+	}
+	return false
+}
 
 // Cur returns the id of the running thread.
 func Cur() int {
@@ -141,6 +174,8 @@ func Run(prefix []int, body func()) *Exec {
 	aborting = false
 	finished = false
 	chans = map[any]*chanState{}
+	asleep = map[*thread]bool{}
+	pendingRes = nil
 	mainWake = make(chan struct{}, 1)
 	Active = true
 	t := newThread("main")
@@ -220,7 +255,7 @@ func endExecution() {
 	}
 	finished = true
 	for _, th := range threads {
-		if !th.done {
+		if !th.done && !th.daemon {
 			ex.Blocked = append(ex.Blocked, Blocked{ID: th.id, Name: th.name, Desc: th.desc + locSuffix(th)})
 		}
 	}
@@ -238,6 +273,12 @@ func endExecution() {
 	}
 	mainWake <- struct{}{}
 }
+
+var (
+	resAllSlice     = []uintptr{ResAll}
+	resHarnessSlice = []uintptr{ResHarness}
+	resCtxSlice     = []uintptr{ResCtx}
+)
 
 func locSuffix(t *thread) string {
 	if t.loc != "" {
@@ -286,17 +327,32 @@ func isEnabled(th *thread) bool {
 func pick(self *thread) *thread {
 	var en []*thread
 	selfEnabled := false
+	sleepers := 0
 	if self != nil && !self.quiesce && isEnabled(self) {
-		en = append(en, self)
-		selfEnabled = true
+		if POR && asleep[self] {
+			sleepers++
+		} else {
+			en = append(en, self)
+			selfEnabled = true
+		}
 	}
 	for _, th := range threads {
 		if th == self || th.done || th.quiesce {
 			continue
 		}
 		if isEnabled(th) {
+			if POR && asleep[th] {
+				sleepers++
+				continue
+			}
 			en = append(en, th)
 		}
+	}
+	if len(en) == 0 && sleepers > 0 {
+		// every enabled thread is asleep: all continuations from here are reorderings of executions
+		// that have been explored already
+		setOutcome("sleep-blocked", "", "")
+		return nil
 	}
 	if len(en) == 0 {
 		for _, th := range threads {
@@ -321,6 +377,17 @@ func pick(self *thread) *thread {
 		if c, ok = takeChoice(len(en), PSched, selfEnabled, "sched"); !ok {
 			return nil
 		}
+	}
+	if POR {
+		for j := 0; j < c; j++ {
+			asleep[en[j]] = true // explored as earlier siblings of this node
+		}
+		for u := range asleep {
+			if u != en[c] && conflict(u.res, en[c].res) {
+				delete(asleep, u)
+			}
+		}
+		delete(asleep, en[c])
 	}
 	if Tracing {
 		th := en[c]
@@ -406,6 +473,11 @@ func point(enabled func() bool, desc string) {
 	t := cur
 	t.enabled = enabled
 	t.desc = desc
+	if pendingRes != nil {
+		t.res, pendingRes = pendingRes, nil
+	} else {
+		t.res = resAllSlice
+	}
 	if Tracing {
 		t.loc = callerLoc(2)
 	}
@@ -441,6 +513,7 @@ func Yield(desc string) {
 	if !Active || aborting {
 		return
 	}
+	pendingRes = resHarnessSlice
 	point(nil, desc)
 }
 
@@ -449,6 +522,7 @@ func Await(cond func() bool, desc string) {
 	if !Active || aborting {
 		return
 	}
+	pendingRes = resHarnessSlice
 	point(cond, desc)
 }
 
@@ -458,6 +532,7 @@ func Event(k string, a ...string) {
 	if !Active || aborting {
 		return
 	}
+	pendingRes = resHarnessSlice
 	point(nil, "event "+k)
 	ex.Log = append(ex.Log, Ev{T: cur.id, K: k, A: a})
 }
@@ -484,6 +559,7 @@ func AwaitQuiescence() {
 		return
 	}
 	cur.quiesce = true
+	pendingRes = resAllSlice
 	point(nil, "quiesce")
 }
 
@@ -503,6 +579,7 @@ func LiveThreads() []Blocked {
 // synchronised inside package context, so observing it is a scheduling point.
 func CtxErr(c interface{ Err() error }) error {
 	if Active && !aborting {
+		pendingRes = resCtxSlice
 		point(nil, "ctx.Err")
 	}
 	return c.Err()
@@ -511,6 +588,7 @@ func CtxErr(c interface{ Err() error }) error {
 // CtxCancel is a call of a context cancel function in instrumented code.
 func CtxCancel(f func()) {
 	if Active && !aborting {
+		pendingRes = resCtxSlice
 		point(nil, "ctx cancel")
 	}
 	f()
@@ -519,7 +597,52 @@ func CtxCancel(f func()) {
 // CtxCancelCause is a call of a context.CancelCauseFunc.
 func CtxCancelCause(f func(error), err error) {
 	if Active && !aborting {
+		pendingRes = resCtxSlice
 		point(nil, "ctx cancel")
 	}
 	f(err)
+}
+
+// CtxAfterFunc is context.AfterFunc in instrumented code: f runs in its own (controlled) thread once
+// ctx is done, unless the returned stop function is called first. The waiting thread stands for the
+// runtime's internal registration, so it is never reported as a thread left behind.
+func CtxAfterFunc(ctx interface {
+	Done() <-chan struct{}
+}, f func()) (stop func() bool) {
+	if !Active || aborting {
+		panic("vs: context.AfterFunc outside an execution is not supported by the instrumented build")
+	}
+	state := 0 // 0 waiting, 1 stopped, 2 fired
+	done := ctx.Done()
+	t := newThread("afterfunc")
+	t.daemon = true
+	startThread(t, func() {
+		pendingRes = resCtxSlice
+		point(func() bool {
+			if state == 1 {
+				return true
+			}
+			select {
+			case <-done:
+				return true
+			default:
+				return false
+			}
+		}, "context.AfterFunc wait")
+		if state == 1 {
+			return
+		}
+		state = 2
+		cur.daemon = false
+		f()
+	})
+	return func() bool {
+		pendingRes = resCtxSlice
+		point(nil, "context.AfterFunc stop")
+		if state == 0 {
+			state = 1
+			return true
+		}
+		return false
+	}
 }
